@@ -7,7 +7,7 @@ patch=$(readlink -f "$1"); demo=$(readlink -f "$2"); hs=${3:-}
 wt=/tmp/cm-$$-$RANDOM
 git -C /repo worktree add -q "$wt" HEAD || exit 3
 cd "$wt"
-run_demo() { if [ -n "$hs" ]; then PYTHONHASHSEED=$hs PYTHONPATH="$wt" timeout 600 /venv/bin/python -W ignore "$demo" >/dev/null 2>&1; else PYTHONPATH="$wt" timeout 600 /venv/bin/python -W ignore "$demo" >/dev/null 2>&1; fi; echo $?; }
+run_demo() { export FORMULAS_TREE="$wt"; if [ -n "$hs" ]; then PYTHONHASHSEED=$hs PYTHONPATH="$wt" timeout 600 /venv/bin/python -W ignore "$demo" >/dev/null 2>&1; else PYTHONPATH="$wt" timeout 600 /venv/bin/python -W ignore "$demo" >/dev/null 2>&1; fi; echo $?; }
 clean=$(run_demo)
 git apply "$patch" || { echo "APPLY-FAILED"; git -C /repo worktree remove --force "$wt"; exit 3; }
 mut=$(run_demo)
